@@ -277,8 +277,13 @@ def run(c):
     td_fail, td_dis, td_stats = teardown(c, vdriver, vmodel, vec, quick)
     # ---------------------------------------------------------------- 4. cancel() against a blocked step()
     cu_fail, cu_dis, cu_stats = cancel_unblocks(c, vdriver, vmodel, vec, hexxml, quick)
+    # ---------------------------------------------------------------- 4b. reset() against the timer thread (section "reset race" below)
+    rr_fail, rr_dis, rr_stats = reset_race(c, vdriver, quick, broken)
     log('C10 schedule replays done (t=%.0fs)' % (time.time() - c.t0))
     c.cov['evaluations'] += td_stats['replays'] + cu_stats['replays']
+    c.cov['evaluations'] += rr_stats.get('replays', 0)
+    c.cov['reset_race'] = rr_stats.get('cov', {})
+    c.notes['reset_race'] = rr_stats
     c.cov['distinct_nontrivial'] = len(nontriv) + td_stats['nontrivial'] + cu_stats['nontrivial']
     c.cov['rule'] = ('API sequences: corpus + all sequences over {step, receive(e1), cancel, reset, destroy} up to length %d from 4 life-cycle '
                      'points (fresh, idle, inside a macrostep, around CANCELLED/FINISHED) on 6 charts x 2 engines + %d seeded random sequences '
@@ -294,8 +299,8 @@ def run(c):
     c.notes['cancel_unblocks'] = cu_stats
 
     # ---------------------------------------------------------------- 5. classify
-    allfails = fails + td_fail + cu_fail
-    alldis = disagreements + td_dis + cu_dis
+    allfails = fails + td_fail + cu_fail + rr_fail
+    alldis = disagreements + td_dis + cu_dis + rr_dis
     c.cov['oracle_failures'] = len(allfails)
     c.cov['disagreements'] = len(alldis)
     byclass = {}
@@ -455,3 +460,199 @@ def cancel_unblocks(c, vdriver, vmodel, vec, hexxml, quick):
         if (md['lost'] == '1') != lost:
             dis.append(('cancel:' + name, eng, l.split()[3:], o, m))
     return fails, dis, {'shapes': [s[0] for s in shapes], 'replays': len(lines), 'nontrivial': len(shapes) * 4, 'lost': len(fails)}
+
+
+# ================================================================== reset race (work package rr) ==================
+# reset() against the timer thread: model coq/theories/ResetRace.v (theorems reset_leaves_nothing_behind,
+# reset_like_fresh_concurrent, gen_reset_order_ok in props/Properties_C10.v), regenerated order of the three
+# sub-steps coq/gen/GenResetOrder.v (tools/translate/tr_resetorder.py), extracted model extract/resetrace,
+# implementation side harness/vd_resetrace.cpp.  Hook points delay.reset.enter/.done, queue.reset.enter/.done
+# (patches/C10-resetrace-hooks.diff); a tree without them cannot be forced and the section is skipped (loudly).
+
+EXPECT.update({
+    'reset-race-stale': 'a reset interpreter behaves like a freshly created one under every interleaving with the timer thread: after '
+                        'reset() returned both event queues are empty, no timer of the previous life is pending, and the restarted machine '
+                        'stepped without events shows the trace of a new interpreter (ResetRace.nothing_leftb / reset_like_fresh_concurrent)',
+    'reset-inflight-callback': 'a timer callback of the previous life that is past its critical section when reset() cancels the timers must '
+                               'not deliver into the restarted machine (ResetRace, variant rv_locks_targets; reset_inflight_refuted for the code without '
+                               'patches/C10-reset-inflight-callback.diff)',
+    'reset-race-hang': 'reset() returns in bounded time under every interleaving with the timer thread',
+})
+
+RR_REQUIRE_HOOKS = False      # set to True once the hook points are in /repo: their absence is then an error, not a skip
+
+
+def rr_model_sched(order, locks, hold, k):
+    """the model schedule that a forced hold stands for: the sub-steps of reset() that are complete when the
+    resetting thread waits, the timer thread as far as it gets, the rest of reset(), the rest of the callback, step()"""
+    steps = {'D': 2 if locks else 1, 'E': 1, 'I': 1}
+    total = sum(steps[p] for p in order)
+    if hold == 'cb':
+        return ['F', 'T'] + ['R'] * (total + 1) + ['T'] * 3 + ['S'] * 3
+    if hold == 'none' or k > len(order):
+        before = total
+    else:
+        before = sum(steps[p] for p in order[:k - 1])
+        if hold == 'enter' and order[k - 1] == 'D' and locks:
+            before += 1                    # delay.reset.enter is reached with _delayMutex taken and the targets cleared
+        if hold == 'done':
+            before += steps[order[k - 1]]
+    return ['R'] * before + ['F', 'T', 'T', 'T'] + ['R'] * (total - before + 1) + ['T'] * 3 + ['S'] * 3
+
+
+def rr_parse(o):
+    d = {}
+    for t in o.split():
+        if '=' in t:
+            k_, v_ = t.split('=', 1)
+            d[k_] = v_
+    d['_hang'] = 'HANG' in o.split()
+    d['_crash'] = any(t.startswith('CRASH') for t in o.split())
+    d['_end'] = o.strip().endswith('end')
+    return d
+
+
+def rr_impl_class(d):
+    if d['_hang']:
+        return 'hang'
+    if d['_crash'] or not d['_end']:
+        return 'crash'
+    if d.get('pre') != 'ok':
+        return 'inconclusive'
+    if d.get('q1') != '0/0' or d.get('q2') != '0/0' or d.get('after') != d.get('fresh'):
+        return 'stale'
+    return 'clean'
+
+
+def reset_race(c, vdriver, quick, broken):
+    t_start = time.time()
+    stats = {'replays': 0, 'cov': {}}
+    tmeta = c.notes.get('translators', {}).get('tr_resetorder', {})
+    stats['translator'] = tmeta
+    try:
+        rmodel = ensure_vmodel('resetrace')
+    except BuildError as e:
+        broken.append({'name': 'extract/resetrace (the reset-race model does not build)', 'ok': False, 'why': str(e)[-600:]})
+        stats['skipped'] = 'model does not build'
+        return [], [], stats
+    rc, g, _ = run_lines(rmodel, ['gen'])
+    gen = dict(kv.split('=') for kv in g[0].split()) if g and '=' in g[0] else {}
+    stats['generated'] = gen
+    order = [] if gen.get('order', '-') == '-' else gen['order'].split(',')
+    locks = gen.get('locks') == '1'
+    short = {'ResetDelay': 'D', 'ResetExternal': 'E', 'ResetInternal': 'I'}
+    if 'error' in tmeta or gen.get('ok') != '1':
+        # the proof obligation gen_reset_order_ok is broken already (fallback); replay with the order the running code shows
+        log('C10 reset race: tr_resetorder could not read InterpreterImpl::reset(): %s' % tmeta.get('error'))
+    elif [short[p] for p in tmeta.get('order', [])] != order or bool(tmeta.get('locks_targets')) != locks:
+        broken.append({'name': 'GenResetOrder.v (the compiled Coq file is not what tr_resetorder.py produced)', 'ok': False,
+                       'why': 'translator %s, compiled %s' % (tmeta, gen)})
+
+    # ---- probe: are the hook points there, and does the running code pass them in the translated order?
+    probe_line = 'resetrace default ext none 0 15 40'
+    rc, po, _ = run_lines(vdriver, [probe_line])
+    if not po or po[0].startswith('ERR unknown command'):
+        broken.append({'name': 'harness/vd_resetrace.cpp (does not compile against the working tree)', 'ok': False, 'why': str(po)})
+        stats['skipped'] = 'harness unit missing'
+        return [], [], stats
+    pd = rr_parse(po[0])
+    arrivals = [] if pd.get('arrivals', '-') == '-' else pd['arrivals'].split(',')
+    enters = [a for a in arrivals if a.endswith('.enter')]
+    stats['probe'] = {'cmd': probe_line, 'arrivals': arrivals}
+    stats['cov']['hooks_present'] = bool(arrivals)
+    if not arrivals:
+        msg = 'the hook points delay.reset.* / queue.reset.* are not in this tree (patches/C10-resetrace-hooks.diff): the reset race cannot be forced, section skipped'
+        log('C10 reset race: ' + msg)
+        stats['skipped'] = msg
+        if RR_REQUIRE_HOOKS:
+            broken.append({'name': 'reset race replay (hook points missing)', 'ok': False, 'why': msg})
+        return [], [], stats
+    observed_order = [('D' if a.startswith('delay.') else 'Q') for a in enters]
+    expected_order = [('D' if p == 'D' else 'Q') for p in order]
+    stats['probe']['agree_with_translator'] = observed_order == expected_order
+    if observed_order != expected_order and gen.get('ok') == '1':
+        broken.append({'name': 'GenResetOrder.v (translator tr_resetorder.py disagrees with the running code)', 'ok': False,
+                       'why': 'translated order %s, reset() passed %s' % (order, enters)})
+    nparts = len(enters)
+
+    # ---- the schedules
+    engines = ('default', 'fast') if quick else ('default', 'large', 'fast')
+    reps = 1 if quick else 4
+    holds = [('none', 0)] + [('enter', k) for k in range(1, nparts + 1)] + [('done', k) for k in range(1, nparts + 1)] + [('cb', 0)]
+    cases = []
+    for eng in engines:
+        for kind in ('ext', 'int'):
+            for hold, k in holds:
+                for _ in range(reps):
+                    cases.append((eng, kind, hold, k))
+    # what the model predicts (for the order in which the running code passes the points if the source could not be read)
+    morder = order if gen.get('ok') == '1' and order else None
+    mlines = []
+    for eng, kind, hold, k in cases:
+        if morder is None:
+            mlines.append('gen')
+        else:
+            mlines.append('rr %d %s %s %s' % (1 if locks else 0, ','.join(morder), 'd' if kind == 'ext' else 'e',
+                                              ','.join(rr_model_sched(morder, locks, hold, k))))
+    mout, _ = run_lines_sharded(rmodel, mlines)
+
+    def impl_run(delay, hold_ms, idx):
+        lines = ['resetrace %s %s %s %d %d %d' % (cases[i][0], cases[i][1], cases[i][2], cases[i][3], delay, hold_ms) for i in idx]
+        out, _ = run_lines_sharded(vdriver, lines, shards=min(NCPU, 8))
+        return lines, out
+    res = [None] * len(cases)
+    todo = list(range(len(cases)))
+    attempts = 0
+    for delay, hold_ms in ((15, 40), (60, 60), (250, 100)):
+        if not todo:
+            break
+        attempts += 1
+        lines, out = impl_run(delay, hold_ms, todo)
+        nxt = []
+        for i, l, o in zip(todo, lines, out):
+            d = rr_parse(o)
+            cls = rr_impl_class(d)
+            res[i] = (l, o, d, cls)
+            stats['replays'] += 1
+            if cls == 'inconclusive':
+                nxt.append(i)          # the machine was too slow: the timer fired before reset() was called
+        todo = nxt
+    fails, dis = [], []
+    classes = {}
+    held_hist = {}
+    delivered_in_hold = 0
+    for (eng, kind, hold, k), m, (l, o, d, cls) in zip(cases, mout, res):
+        md = dict(kv.split('=') for kv in m.split() if '=' in kv)
+        mcls = md.get('class', 'unknown') if morder is not None else 'unknown'
+        classes[(hold, cls, mcls)] = classes.get((hold, cls, mcls), 0) + 1
+        held = d.get('held', '-')
+        key = '%s#%d@%s' % (hold, k, held) if hold in ('enter', 'done') else hold
+        held_hist[key] = held_hist.get(key, 0) + 1
+        if d.get('delivered_in_hold') == '1':
+            delivered_in_hold += 1
+        if hold in ('enter', 'done') and cls in ('clean', 'stale') and held == '-':
+            dis.append(('resetrace:' + kind, eng, [hold, str(k)], o, 'the resetting thread never reached its hold point'))
+            continue
+        if cls in ('stale', 'hang', 'crash'):
+            fcls = 'reset-inflight-callback' if (hold == 'cb' and cls == 'stale') else ('reset-race-stale' if cls == 'stale' else 'reset-race-' + cls)
+            fails.append((fcls, 'resetrace:%s' % kind, eng, [hold, str(k)],
+                          {'cmd': l, 'observed': o, 'model': m, 'order': ','.join(order), 'schedule':
+                           ('timer thread held at delay.callback.unlocked until reset() returned' if hold == 'cb' else
+                            'resetting thread held at arrival %d of *.reset.%s (%s) until the delayed send of the previous life was delivered / overdue' % (k, hold, held))}))
+        elif cls == 'inconclusive':
+            dis.append(('resetrace:' + kind, eng, [hold, str(k)], o, 'schedule not established in %d attempts' % attempts))
+        elif mcls not in ('unknown', cls):
+            # the model (regenerated order) predicts a stale event and the implementation is clean
+            dis.append(('resetrace:' + kind, eng, [hold, str(k)], o, m))
+    stats.update({
+        'order': order, 'locks_targets': locks, 'engines': list(engines), 'kinds': ['ext', 'int'],
+        'holds': ['%s#%d' % h for h in holds], 'attempts': attempts,
+        'outcome_classes': {'%s impl=%s model=%s' % k_: v for k_, v in sorted(classes.items())},
+        'oracle_failures': len(fails), 'disagreements': len(dis), 'wall_s': round(time.time() - t_start, 2)})
+    stats['cov'].update({
+        'schedules_replayed': len(cases), 'hook_arrivals_held': held_hist, 'timer_delivered_during_hold': delivered_in_hold,
+        'outcome_classes': stats['outcome_classes'], 'generated_order': order, 'reset_locks_targets': locks})
+    stats['samples'] = [{'cmd': res[i][0], 'impl': res[i][1], 'model': mout[i]} for i in (0, 1, len(cases) - 1) if i < len(cases)]
+    log('C10 reset race: order %s locks=%s, %d schedules, %d oracle failures, %d disagreements (%.1fs)' %
+        (','.join(order) or '-', locks, len(cases), len(fails), len(dis), time.time() - t_start))
+    return fails, dis, stats
